@@ -71,6 +71,8 @@ def run_one(base, chk, routine, state, n=None, dup=False):
 
 def run(chk):
     prog, base = setup(chk)
+    from .common import state_shape
+    state_shape(chk, prog)
     thorough = chk.tier == "thorough"
     maxn = 4 if thorough else 2
     chk.bounds = ["all scalars k_j in [0,l) (symbolic integers), all points (abstract generators of a free abelian group: torsion components and every projective representation are covered by construction)",
